@@ -91,6 +91,25 @@ class Ctx:
         f = self.u.fn(fn)
         return cast.where(f) if f else ''
 
+    def helpers_reached(self, fn):
+        """helpers unknown to the rules that `fn` reaches through direct calls (transitively)"""
+        seen, todo, out = set(), [fn], set()
+        while todo:
+            g = todo.pop()
+            if g in seen:
+                continue
+            seen.add(g)
+            b = self.u.body(g)
+            if b is None:
+                continue
+            for c in cast.calls_in(b):
+                n = cast.callee_name(c)
+                if n in self.new_helpers:
+                    out.add(n)
+                if n and n not in seen:
+                    todo.append(n)
+        return out
+
 
 # ---------------------------------------------------------------------------
 def rule_part_bounds(cx):
@@ -118,7 +137,8 @@ def rule_part_bounds(cx):
                     bad = 'medium touched before the out-of-range refusal'
                 continue
             if mc or other:
-                facts = eng.path_facts(p)
+                # conversions of the caller's offset / n to a narrower type preserve the value only where that is proved
+                facts = eng.strict_facts(p, about=(off, n))
                 if not eng.entails(facts, L(off) + L(n) - L(DATA_SIZE)):
                     bad = 'medium access without offset + n <= data.size established: %s' % p.describe()
         if nref == 0 and bad is None:
@@ -432,10 +452,11 @@ def rule_width(cx, rule='C10.d', fns=('checksum_size', 'persistent_checksum', 'p
 def rule_fold(cx):
     """C10.c fold shape: seed, update, same member one-shot vs chunked"""
     ck = cx.ck
-    if cx.new_helpers:
+    via = cx.helpers_reached('persistent_calculate_checksum')
+    if via:
         # the accumulator is updated through a helper's pointer parameter: a shape this rule does not read reliably
         return ck.broken('C10.c', 'persistent_calculate_checksum:fold', cx.where('persistent_calculate_checksum'),
-                         'checksum steps go through helper(s) %s introduced after the rule was written' % sorted(cx.new_helpers))
+                         'checksum steps go through helper(s) %s introduced after the rule was written' % sorted(via))
     ps = cx.paths('persistent_calculate_checksum', 'C10.c')
     if ps is None:
         return
